@@ -308,6 +308,14 @@ ItemSelfTy(p, it) == TPath(FALSE, p, [i \in DOMAIN it.generics |-> TPath(FALSE, 
 Sized(S, Root) == \A k \in DOMAIN AllItems(Root) :
                     SizedTy(S, Root, ItemSelfTy(AllItems(Root)[k].path, AllItems(Root)[k].it), <<>>)
 
+\* the CompactAs derive is accepted only on a struct with exactly one non-skipped field
+\* (derives are a sequence of strings in projected items and a set of strings in model items)
+CompactAsName(S) == (IF S.compact_as.lead THEN "::" ELSE "") \o JoinWith(S.compact_as.segs, "::")
+CompactAsShape(it) == it.kind = "struct" /\ Cardinality({i \in DOMAIN it.fields : ~it.fields[i].skip}) = 1
+CompactAsOKSeq(S, Root) == \A k \in DOMAIN AllItems(Root) : LET it == AllItems(Root)[k].it IN
+                             (S.has_compact_as /\ \E d \in DOMAIN it.derives : it.derives[d] = CompactAsName(S)) => CompactAsShape(it)
+CompactAsOKSet(S, Root) == \A k \in DOMAIN AllItems(Root) : LET it == AllItems(Root)[k].it IN
+                             (S.has_compact_as /\ CompactAsName(S) \in it.derives) => CompactAsShape(it)
 RustWfFailed(S, fileProj) ==
   LET Root == RootOf(fileProj) IN
   (IF Len(fileProj.mods) = 1 /\ Len(fileProj.items) = 0 /\ Len(fileProj.others) = 0 /\ Root.name = S.root THEN {} ELSE {"SingleRootModule"})
